@@ -89,6 +89,9 @@ class Report(object):
     def finish(self):
         os.makedirs(EVIDENCE_DIR, exist_ok=True)
         os.makedirs(REPLAY_DIR, exist_ok=True)
+        for old in os.listdir(REPLAY_DIR):
+            if old.startswith(self.prop + '-') and old.endswith('.json'):
+                os.unlink(os.path.join(REPLAY_DIR, old))
         known = _findings.load()
         new, seen = [], {}
         for v in self.violations:
